@@ -68,6 +68,23 @@ namespace
       r.f.clear();
     }
 
+    /// non-monotone target orders for parts without topology: reversed / rotated / odd-first, depending on the variant
+    static void scramble(vm::PartSpec& ps, int v)
+    {
+      for(int d = 0; d <= dim; ++d)
+      {
+        std::vector<Index>& t = ps.trg[d];
+        if(t.size() < 2) continue;
+        switch((v + d) % 4)
+        {
+        case 1: std::reverse(t.begin(), t.end()); break;
+        case 2: std::rotate(t.begin(), t.begin() + std::ptrdiff_t(t.size() / 2), t.end()); break;
+        case 3: { std::vector<Index> o; for(size_t i = 1; i < t.size(); i += 2) o.push_back(t[i]); for(size_t i = 0; i < t.size(); i += 2) o.push_back(t[i]); t = o; } break;
+        default: break;
+        }
+      }
+    }
+
     /// attaches the generated mesh parts
     static void attach_parts(NodeType& node, const vm::PMesh& M, const vm::TopoInfo& ti, const Opts& o, verif::Ctx& c)
     {
@@ -92,6 +109,7 @@ namespace
         for(size_t i = 0; i < bf.size(); ++i) if(((v * 7 + int(i) * 3) % 5) < 2) ps.trg[fd].push_back(bf[i]);
         if(ps.trg[fd].empty()) ps.trg[fd].push_back(bf[size_t(v) % bf.size()]);
         vm::close_part(M, ps);
+        scramble(ps, v);
         node.add_mesh_part(ps.name, vm::build_part<MeshType>(ps, M, o.qbits + 3 * o.depth));
       }
       // not closed: some facets (interior ones too), some vertices, some edges, one cell
@@ -102,6 +120,7 @@ namespace
         if(dim == 3) for(Index i = Index(v % 5); i < M.n[1]; i += 5) ps.trg[1].push_back(i);
         ps.trg[dim].push_back(Index(v) % M.n[dim]);
         if(fd == 0) { std::set<Index> s(ps.trg[0].begin(), ps.trg[0].end()); ps.trg[0].assign(s.begin(), s.end()); }
+        scramble(ps, v + 1);
         node.add_mesh_part(ps.name, vm::build_part<MeshType>(ps, M, o.qbits + 3 * o.depth));
       }
       // cells with closure
@@ -110,9 +129,11 @@ namespace
         for(Index i = 0; i < M.n[dim]; ++i) if(((Index(v) + i) % 3) != 1 || M.n[dim] == 1) ps.trg[dim].push_back(i);
         if(ps.trg[dim].empty()) ps.trg[dim].push_back(0);
         vm::close_part(M, ps);
+        scramble(ps, v + 2);
         node.add_mesh_part(ps.name, vm::build_part<MeshType>(ps, M, o.qbits + 3 * o.depth));
       }
       // facets with own topology (both boundary and interior facets)
+      if(dim >= 2)
       {
         std::vector<Index> top;
         for(Index f = 0; f < M.n[fd]; ++f) if(((Index(v) * 5 + f * 2) % 7) < 4) top.push_back(f);
@@ -121,10 +142,11 @@ namespace
         node.add_mesh_part(ps.name, vm::build_part<MeshType>(ps, M, o.qbits + 3 * o.depth));
       }
       // 2D: cells with own topology; 3D: not implemented in FEAT (StandardTargetRefiner aborts) -> excluded
-      if(dim == 2)
+      if(dim <= 2)
       {
         std::vector<Index> top;
         for(Index i = 0; i < M.n[dim]; ++i) if(((Index(v) + i) % 4) != 3) top.push_back(i);
+        if(top.empty()) top.push_back(0);
         vm::PartSpec ps = vm::topo_part(M, ti, top, dim, v + 1, "topocells");
         node.add_mesh_part(ps.name, vm::build_part<MeshType>(ps, M, o.qbits + 3 * o.depth));
       }
@@ -262,6 +284,13 @@ namespace
         vm::PMesh F;
         r.ctx = "level " + vm::str(lvl - 1) + "->" + vm::str(lvl);
         if(!vm::extract_mesh(F, *fine->get_mesh(), qtot, &err)) { c.fail("vertex.lattice", r.ctx + ": " + err); return; }
+        // the refined-from node must be untouched (snapshot taken before the refinement)
+        {
+          vm::PMesh C2; std::map<std::string, vm::PPart> PC2;
+          vm::extract_mesh(C2, *node->get_mesh(), qtot, &err); collect_parts(*node, PC2);
+          std::string d = vm::diff_mesh(C, C2); if(d.empty()) d = vm::diff_parts(PC, PC2);
+          if(!d.empty()) { c.fail("input-modified", r.ctx + ": refine_unique changed its (const) source node: " + d); return; }
+        }
         vm::RefineInfo ri;
         vm::check_refinement(C, F, r, ri);
         c.count("refinements_checked");
@@ -280,6 +309,46 @@ namespace
           if(p.second.attr.count("coord")) check_attr(F, it->second, qtot, r, w);
           if(p.first == "loop") check_param(it->second, r, w);
           c.count("part_refinements_checked");
+        }
+        // re-invocation and derived objects (first level): a second refinement of the same node, the refinement of a
+        // clone of the node, and StandardRefinery on a cloned + moved bare mesh must all reproduce the first result
+        if(lvl == 1)
+        {
+          r.ctx = "level 0->1";
+          auto cmp = [&](const NodeType& other, const std::string& key, const std::string& what)
+          {
+            vm::PMesh F2; std::map<std::string, vm::PPart> PF2;
+            vm::extract_mesh(F2, *other.get_mesh(), qtot, &err); collect_parts(other, PF2);
+            std::string d = vm::diff_mesh(F, F2); if(d.empty()) d = vm::diff_parts(PF, PF2);
+            if(!d.empty()) r.fail(key, what + " differs from the first refinement: " + d);
+          };
+          { std::unique_ptr<NodeType> again = node->refine_unique(AdaptMode::none); cmp(*again, "reinvoke.refine", "second refine_unique of the same node"); }
+          std::unique_ptr<NodeType> cl = node->clone_unique();
+          {
+            vm::PMesh Cc; std::map<std::string, vm::PPart> PCc;
+            vm::extract_mesh(Cc, *cl->get_mesh(), qtot, &err); collect_parts(*cl, PCc);
+            std::string d = vm::diff_mesh(C, Cc); if(d.empty()) d = vm::diff_parts(PC, PCc);
+            if(!d.empty()) r.fail("clone.node", "clone_unique() of the node differs from the node: " + d);
+            const auto& n1 = node->get_mesh()->get_neighbors(); const auto& n2 = cl->get_mesh()->get_neighbors();
+            bool nbs = (n1.get_num_entities() == n2.get_num_entities());
+            for(Index i = 0; nbs && i < n1.get_num_entities(); ++i) for(int j = 0; j < n1.num_indices; ++j) if(n1(i, j) != n2(i, j)) nbs = false;
+            if(!nbs) r.fail("clone.neighbors", "clone_unique() lost the neighbour information");
+          }
+          std::unique_ptr<NodeType> clf = cl->refine_unique(AdaptMode::none);
+          cmp(*clf, "clone.refine", "refinement of the cloned node");
+          {
+            MeshType mc = node->get_mesh()->clone();
+            StandardRefinery<MeshType> rf(mc);
+            MeshType mf = rf.make();
+            MeshType mm(std::move(mf));
+            vm::PMesh F3; vm::extract_mesh(F3, mm, qtot, &err);
+            std::string d = vm::diff_mesh(F, F3);
+            if(!d.empty()) r.fail("clone.mesh", "StandardRefinery on a cloned mesh + move construction differs: " + d);
+          }
+          c.count("reinvocations_checked");
+          if(!r.ok()) { flush(c, r, ""); return; }
+          // odd variants continue on the derived object
+          if(o.part_variant >= 0 && (o.part_variant & 1)) fine = std::move(clf);
         }
         // computed boundary == facets with one adjacent cell
         {
@@ -310,7 +379,7 @@ namespace
           auto& is = m2.template get_index_set<dim, 0>();
           const auto& is0 = fine->get_mesh()->template get_index_set<dim, 0>();
           for(Index i = 0; i < F.n[dim]; ++i) for(int j = 0; j < is.num_indices; ++j) is(i, j) = is0(i, j);
-          vm::deduct_topology(m2, use_flipper);
+          if constexpr(dim >= 2) vm::deduct_topology(m2, use_flipper);
           vm::PTopo T2; Index n2[4] = {0, 0, 0, 0};
           for(int d = 0; d <= dim; ++d) n2[d] = m2.get_num_entities(d);
           vm::extract_topo<Shape_>(T2, m2.get_index_set_holder(), n2);
@@ -478,7 +547,7 @@ namespace
           auto& vs = node->get_mesh()->get_vertex_set();
           for(Index i = 0; i < vs.get_num_vertices(); ++i) for(int j = 0; j < MeshType::world_dim; ++j)
             vs[i][j] = std::ldexp(std::nearbyint(std::ldexp(double(vs[i][j]), o.qbits)), -o.qbits);
-          node->get_mesh()->fill_neighbors();
+          if(o.perm_strategy != 0) node->get_mesh()->fill_neighbors(); // plain runs refine the node exactly as parsed
           if(attempt > 0) o.adapt_check = false; // charts guessed from another file: adaption is not meaningful
           run_node(c, std::move(node), o);
           return true;
@@ -525,19 +594,7 @@ namespace
     }
   }
 
-  void renumber_vertices(vm::MeshSpec& ms, int mode)
-  {
-    const size_t n = ms.vtx.size();
-    std::vector<Index> np(n);
-    for(size_t i = 0; i < n; ++i) np[i] = Index(mode == 1 ? n - 1 - i : (mode == 2 ? (i * 5 + 2) % n : i));
-    if(mode == 2) { std::set<Index> s(np.begin(), np.end()); if(s.size() != n) for(size_t i = 0; i < n; ++i) np[i] = Index((i + n / 2) % n); }
-    std::vector<std::array<int, 3>> nv(n);
-    for(size_t i = 0; i < n; ++i) nv[size_t(np[i])] = ms.vtx[i];
-    ms.vtx = nv;
-    for(auto& c : ms.cells) for(auto& v : c) v = np[size_t(v)];
-    for(auto& c : ms.edges) for(auto& v : c) v = np[size_t(v)];
-    for(auto& c : ms.faces) for(auto& v : c) v = np[size_t(v)];
-  }
+  using vm::renumber_vertices;
 
   uint64_t spec_hash(const vm::MeshSpec& ms, const Opts& o)
   {
@@ -587,6 +644,8 @@ namespace
       vm::renumber_cell(ms, 0, G[ga]); vm::renumber_cell(ms, 1, G[gb]);
       if((ga + gb) % 3 == 1) renumber_vertices(ms, 1);
       if((ga + gb) % 3 == 2) renumber_vertices(ms, 2);
+      if((ga * 7 + gb) % 2 == 1) { vm::reorder_cells(ms, 1); ms.name += " cells-swapped"; }
+      if((ga + 2 * gb) % 4 == 1) { vm::shift_coords(ms); ms.name += " negative-coords"; }
       if(mode == 1) vm::make_explicit(ms, int((ga * 3 + gb) % size_t(nvar * 2)));
       o.part_variant = int(ga * 5 + gb + size_t(mode));
       if(!c.thorough && dim == 3 && !sx) o.depth = 1 + mode; else o.depth = c.thorough ? 3 : 2;
@@ -621,6 +680,8 @@ namespace
             vm::renumber_cell(ms, size_t(i), G[gi]); gs += (i ? "," : "") + std::to_string(gi);
           }
           ms.name = shape + " star" + std::to_string(n) + " g=(" + gs + ")";
+          vm::reorder_cells(ms, int(code % 3));
+          if(code % 7 == 3) vm::shift_coords(ms);
           if(code % 4 == 3) vm::make_explicit(ms, int(code % size_t(nvar * 2)));
           if(code % 5 == 2) renumber_vertices(ms, 1);
           o.part_variant = int(code % 97);
@@ -641,7 +702,9 @@ namespace
         if(!c.want()) continue;
         vm::MeshSpec ms = blocks[b];
         renumber_vertices(ms, rn);
-        ms.name = shape + " " + ms.name + " renumber=" + std::to_string(rn);
+        vm::reorder_cells(ms, (rn + strat) % 3);
+        if(ex == 1 && rn == 1) vm::shift_coords(ms);
+        ms.name = shape + " " + ms.name + " renumber=" + std::to_string(rn) + " cellorder=" + std::to_string((rn + strat) % 3);
         if(ex) vm::make_explicit(ms, rn + strat);
         o.part_variant = rn * 11 + strat + ex;
         o.perm_strategy = strat;
@@ -649,6 +712,25 @@ namespace
         do_case<Shape_>(c, ms, o);
       }
       o.perm_strategy = 0;
+    }
+  }
+
+  /// unusual but legal shape: 1D meshes (chains of 1..4 edges, every orientation pattern, 3 vertex numberings)
+  template<typename Shape_>
+  void enumerate_1d(verif::Ctx& c, const std::string& shape)
+  {
+    Opts o; o.shape = shape; o.coverage = false;
+    for(int n = 1; n <= 4; ++n) for(int flips = 0; flips < (1 << n); ++flips) for(int rn = 0; rn < 3; ++rn)
+    {
+      if(!c.want()) continue;
+      vm::MeshSpec ms; ms.simplex = vm::ShapeInfo<Shape_>::simplex; ms.dim = 1; ms.name = shape + " chain" + std::to_string(n) + " flips=" + std::to_string(flips) + " renumber=" + std::to_string(rn);
+      for(int i = 0; i <= n; ++i) ms.vtx.push_back({8 * i + vm::wob(i, 1) - (rn == 2 ? 100 : 0), 0, 0});
+      for(int i = 0; i < n; ++i) { if((flips >> i) & 1) ms.cells.push_back({Index(i + 1), Index(i)}); else ms.cells.push_back({Index(i), Index(i + 1)}); }
+      renumber_vertices(ms, rn);
+      vm::reorder_cells(ms, (flips + rn) % 3);
+      o.depth = c.thorough ? 3 : 2;
+      o.part_variant = flips + rn;
+      do_case<Shape_>(c, ms, o);
     }
   }
 
@@ -698,6 +780,7 @@ int main(int argc, char** argv)
     "3D mesh parts with own topology that contain cells are excluded (documented as not implemented in StandardTargetRefiner)",
     "mesh files > 2000 cells and files that need charts from other files which cannot be resolved are excluded (listed in counters)"};
   spec.deadline_quick_s = 900;
+  spec.case_timeout_s = 300;
   std::vector<FileInfo> files; std::vector<std::string> charts;
   const char* vr = std::getenv("VERIF_REPO");
   scan_files(std::string(vr ? vr : "/repo") + "/data/meshes", files, charts);
@@ -706,6 +789,8 @@ int main(int argc, char** argv)
     enumerate_shape<Shape::Simplex<2>>(c, "tria");
     enumerate_shape<Shape::Simplex<3>>(c, "tetra");
     enumerate_shape<Shape::Hypercube<3>>(c, "hexa");
+    enumerate_1d<Shape::Hypercube<1>>(c, "edge");
+    enumerate_1d<Shape::Simplex<1>>(c, "simplex-edge");
     enumerate_files<Shape::Hypercube<2>>(c, files, charts);
     enumerate_files<Shape::Simplex<2>>(c, files, charts);
     enumerate_files<Shape::Simplex<3>>(c, files, charts);
